@@ -64,7 +64,7 @@ def crossing3_weights(n, t):
     return math.exp(-ENERGIES[n] * t - 0.5 * n)
 
 
-def make_corr(pe, N, T, key, weights=None, antisym=0.0, undefined=(), antisym_from=0):
+def make_corr(pe, N, T, key, weights=None, antisym=0.0, undefined=(), antisym_from=0, scale=1.0):
     """Matrix correlator whose every sample is an exact spectral matrix (only the state amplitudes fluctuate)."""
     ncfg = 8
     r = alpha.rng('c16', key, N, T)
@@ -74,7 +74,7 @@ def make_corr(pe, N, T, key, weights=None, antisym=0.0, undefined=(), antisym_fr
         if t in undefined:
             content.append(None)
             continue
-        samples = np.array([spectral_matrix(N, t, amp=(1 + eps[c]) ** 2, weights=weights) for c in range(ncfg)])
+        samples = scale * np.array([spectral_matrix(N, t, amp=(1 + eps[c]) ** 2, weights=weights) for c in range(ncfg)])
         m = np.empty((N, N), dtype=object)
         anti = {}
         for i in range(N):
@@ -114,7 +114,7 @@ def build(tier, seed):
     Ts = (8, 10, 12) if tier == 'quick' else (8, 12, 16, 24)
     for N in Ns:
         for T in Ts:
-            for variant in ('exact', 'nonsym', 'nonsym-late', 'undef1', 'undef2', 'crossing') + (('crossing3',) if N >= 3 else ()):
+            for variant in ('exact', 'nonsym', 'nonsym-late', 'undef1', 'undef2', 'crossing', 'crossing-large', 'crossing-small') + (('crossing3',) if N >= 3 else ()):
                 cases.append({'kind': 'gevp', 'N': N, 'T': T, 'variant': variant})
         for T in Ts[:2]:
             cases.append({'kind': 'prune', 'N': N, 'T': T})
@@ -162,9 +162,9 @@ def check_vectors(pe, acc, sub, C, G, t0, t, vecs, label, crossing=False):
 def run_gevp(pe, acc, case):
     N, T, variant = case['N'], case['T'], case['variant']
     undefined = {'undef1': (T // 2,), 'undef2': (2, T - 2)}.get(variant, ())
-    weights = crossing_weights if variant == 'crossing' else crossing3_weights if variant == 'crossing3' else None
+    weights = crossing_weights if variant.startswith('crossing') and variant != 'crossing3' else crossing3_weights if variant == 'crossing3' else None
     C = make_corr(pe, N, T, variant, weights=weights, antisym=(0.003 if variant in ('nonsym', 'nonsym-late') else 0.0), undefined=undefined,
-                  antisym_from=(2 if variant == 'nonsym-late' else 0))     # 'late': symmetric on the first timeslices, non-symmetric afterwards
+                  antisym_from=(2 if variant == 'nonsym-late' else 0), scale={'crossing-large': 1.0e6, 'crossing-small': 1.0e-6}.get(variant, 1.0))     # 'late': symmetric on the first timeslices, non-symmetric afterwards
     G = {t: mean_matrix(C, t) for t in range(T) if t not in undefined}
     for t0 in range(1, T // 3 + 1):
         if t0 in undefined:
